@@ -30,8 +30,8 @@ func init() {
 			"closed-world caller tables for Message.Ack / Source.Ack / ackNacker.Ack (K1), and dominance of every ack-forwarding call by the success edge of its confirmation test " +
 			"(position-equality + nil ack error in the v1 destination acker and DLQ destination; remaining==0 or the Acked channel in the v1 fan-out; " +
 			"confirmed-count vs expected-count before DestinationTask.Do returns nil; end-of-chain test before acker.Ack; per-position unanimity in multiAckNacker; " +
-			"run completion in runAckNacker; DLQ-write success before the source ack in both engines). Each holds on all paths of the analysed function, hence for every schedule and input.",
-		NotDecided: []string{"truthfulness of plugin confirmations", "liveness", "actual completion orders at run time", "correctness of third-party primitives (atomic, sync, conc pool)"},
+			"run completion in runAckNacker; DLQ-write success before the source ack in both engines; poison re-check under the shared-destination lock). Each holds on all paths of the analysed function, hence for every schedule and input.",
+		NotDecided:  []string{"truthfulness of plugin confirmations", "liveness", "actual completion orders at run time", "correctness of third-party primitives (atomic, sync, conc pool)"},
 		Assumptions: []string{"go/types and go/ssa model the program faithfully", "calls through function values other than the tabled handler closures do not reach Source.Ack (no such value exists in the caller table)"},
 	})
 }
@@ -45,6 +45,7 @@ func runC01(c *Ctx) {
 	c01R6(c)
 	c01R7(c)
 	c01R8(c)
+	c05SharedDest(c, c.R.Rule("R9", "K4/K3 (= C05.R4) v2 shared destination: a worker enters a shared subtree only under sharedMu and re-checks the poison flag after acquiring it, so it never reads a failed pass's leftover destination replies as its own confirmation", 6))
 }
 
 // R1: closed caller tables for the ack entry points.
@@ -185,18 +186,7 @@ func c01R2(c *Ctx) {
 		dstWrite := c.Fam(c.Fn(r, pStream, "Destination.Write"))
 		gWrite := okGates(kit.CallsTo(w, dstWrite), "Destination.Write ok")
 		gAck := okGates(kit.CallsTo(w, dstAck), "Destination.Ack ok")
-		gLen := kit.NewGates().AddEdges(kit.CmpEdges(w, func(b *ssa.BinOp) (bool, bool) {
-			isLen := func(v ssa.Value) bool { return kit.IsLenOf(v, nil) }
-			if (isLen(b.X) && kit.IsIntConst(b.Y, 1)) || (isLen(b.Y) && kit.IsIntConst(b.X, 1)) {
-				switch b.Op {
-				case token.EQL:
-					return true, true
-				case token.NEQ:
-					return true, false
-				}
-			}
-			return false, false
-		}), "len(ack)==1")
+		gLen := kit.NewGates().AddEdges(kit.LenEdges(w, nil, 1, 1), "len(ack)==1")
 		gPos := kit.NewGates()
 		if bytesEqual != nil {
 			for _, eq := range kit.CallsTo(w, Set(bytesEqual)) {
@@ -455,17 +445,7 @@ func c01R4(c *Ctx) {
 			return false, false
 		}), "ackCount >= len(positions)")
 		// an empty write (no active records) needs no confirmation: len(positions)==0 edges
-		g.AddEdges(kit.CmpEdges(do, func(b *ssa.BinOp) (bool, bool) {
-			if isPosLen(b.X) && kit.IsIntConst(b.Y, 0) {
-				switch b.Op {
-				case token.EQL, token.LEQ:
-					return true, true
-				case token.NEQ, token.GTR:
-					return true, false
-				}
-			}
-			return false, false
-		}), "")
+		g.AddEdges(kit.RangeEdges(do, isPosLen, 0, 0), "")
 		nilRets, _ := kit.NilReturns(do)
 		if len(nilRets) == 0 {
 			c.R.Fail(r, "DestinationTask.Do: return nil", c.Pos(do.Pos()), "no `return nil` found (shape changed)")
@@ -485,17 +465,23 @@ func c01R4(c *Ctx) {
 		bytesEqual := c.ExtFunc(r, "bytes", "Equal")
 		nilRets, _ := kit.NilReturns(v)
 		// len(acks) > len(positions) refused
-		g := kit.NewGates().AddEdges(kit.CmpEdges(v, func(b *ssa.BinOp) (bool, bool) {
-			if kit.IsLenOf(b.X, nil) && kit.IsLenOf(b.Y, nil) {
-				switch b.Op {
-				case token.GTR:
-					return true, false
-				case token.LEQ:
-					return true, true
+		ackP, posP := v.Params[len(v.Params)-2], v.Params[len(v.Params)-1]
+		if len(v.Params) >= 2 {
+			// positional: validateAcks(acks, positions)
+			for _, p := range v.Params {
+				if s, ok := p.Type().Underlying().(*types.Slice); ok {
+					if n, ok := s.Elem().(*types.Named); ok && n.Obj().Name() == "Position" {
+						posP = p
+					} else {
+						ackP = p
+					}
 				}
 			}
-			return false, false
-		}), "len(acks) <= len(positions)")
+		}
+		g := kit.NewGates().AddEdges(kit.RelEdges(v,
+			func(x ssa.Value) bool { return kit.IsLenOf(x, func(y ssa.Value) bool { return kit.IsVar(y, ackP) }) },
+			func(x ssa.Value) bool { return kit.IsLenOf(x, func(y ssa.Value) bool { return kit.IsVar(y, posP) }) },
+			kit.RelLE), "len(acks) <= len(positions)")
 		c.Dominated(r, "validateAcks: return nil only when len(acks) <= len(positions)", asInstrs(nilRets), g, "the len(acks) <= len(positions) edge")
 		// a position mismatch never reaches `return nil`
 		eqs := kit.CallsTo(v, Set(bytesEqual))
@@ -658,9 +644,79 @@ func c01R7(c *Ctx) {
 			g.AddEdges(kit.CondEdges(d, true), "run.complete() == true")
 		}
 	}
-	fwd := kit.CallsTo(vote, Set(ackM, nackM))
-	if len(fwd) < 2 {
-		c.R.Fail(r, "vote: parent forward calls", c.Pos(vote.Pos()), "expected parent.Ack and parent.Nack calls in runAckNacker.vote")
+	// where a completed run is handed to the parent: direct parent.Ack/Nack calls, or calls of a
+	// dispatcher helper (a method that calls parent.Ack under a bool parameter and parent.Nack otherwise)
+	// that lie behind the run-complete edge
+	nackedF := c.Field(r, pFunnel, "splitRun", "nacked")
+	isNackedLoad := func(v ssa.Value) bool { return nackedF != nil && kit.IsFieldLoad(v, nackedF) }
+	var fwd []ssa.CallInstruction
+	behind := func(in ssa.Instruction) bool {
+		ok, _ := kit.MustPass(in, g)
+		return ok && !g.Empty()
+	}
+	for _, call := range kit.CallsTo(vote, Set(ackM, nackM)) {
+		fwd = append(fwd, call)
+		isAckCall := kit.CalleeOf(call.Common()) == ackM
+		gk := kit.NewGates()
+		for _, l := range kit.FieldLoads(vote, nackedF) {
+			gk.AddEdges(kit.CondEdges(l, !isAckCall), "")
+		}
+		what := "parent.Ack only for a run without a nacked piece"
+		if !isAckCall {
+			what = "parent.Nack only for a run with a nacked piece"
+		}
+		c.Dominated(r, "vote: "+what, []ssa.Instruction{call}, gk, "the run.nacked edge (the sticky flag, not the current vote)")
+	}
+	for _, b := range vote.Blocks {
+		for _, in := range b.Instrs {
+			call, ok := in.(*ssa.Call)
+			if !ok || !behind(call) {
+				continue
+			}
+			h := call.Call.StaticCallee()
+			if h == nil || h.Pkg != vote.Pkg || len(kit.CallsTo(h, Set(ackM))) == 0 || len(kit.CallsTo(h, Set(nackM))) == 0 {
+				continue
+			}
+			fwd = append(fwd, call)
+			// which bool parameter of the dispatcher selects Ack
+			okDispatch := false
+			for i, p := range h.Params {
+				if bt, isB := p.Type().Underlying().(*types.Basic); !isB || bt.Kind() != types.Bool {
+					continue
+				}
+				for _, pol := range []bool{true, false} {
+					ga := kit.NewGates().AddEdges(kit.CondEdges(p, pol), "")
+					gn := kit.NewGates().AddEdges(kit.CondEdges(p, !pol), "")
+					all := !ga.Empty()
+					for _, a := range kit.CallsTo(h, Set(ackM)) {
+						if ok, _ := kit.MustPass(a, ga); !ok {
+							all = false
+						}
+					}
+					for _, n := range kit.CallsTo(h, Set(nackM)) {
+						if ok, _ := kit.MustPass(n, gn); !ok {
+							all = false
+						}
+					}
+					if !all || i >= len(call.Call.Args) {
+						continue
+					}
+					// Ack is selected when the parameter == pol: the argument must be (pol ? !run.nacked : run.nacked)
+					arg := call.Call.Args[i]
+					if pol {
+						if u, isU := arg.(*ssa.UnOp); isU && u.Op == token.NOT && isNackedLoad(u.X) {
+							okDispatch = true
+						}
+					} else if isNackedLoad(arg) {
+						okDispatch = true
+					}
+				}
+			}
+			c.R.Check(okDispatch, r, "vote: a completed run is dispatched by its sticky nacked flag", c.Pos(call.Pos()), "ok", "a completed split run is handed to "+h.Name()+" with a selector that is not derived from run.nacked: a run with an earlier nacked piece whose last vote is an ack would be acked to the source and never dead-lettered", true)
+		}
+	}
+	if len(fwd) == 0 {
+		c.R.Fail(r, "vote: parent forward calls", c.Pos(vote.Pos()), "no hand-off of a completed run to the parent found in runAckNacker.vote")
 	}
 	c.Dominated(r, "vote: parent.Ack/Nack only when the run completed", asInstrs(fwd), g, "the done==true edge of run.complete()")
 	// released=true store precedes the forward
@@ -730,17 +786,8 @@ func c01R8(c *Ctx) {
 			}
 			c.R.Check(ok, r, "v2 Worker.Nack: acks exactly the stored prefix", c.Pos(call.Pos()), "Source.Ack(originalBatch.positions[:n]) with n from DLQ.Nack", detail, true)
 			// n > 0
-			g := kit.NewGates().AddEdges(kit.CmpEdges(nack, func(b *ssa.BinOp) (bool, bool) {
-				if b.X == nVal && kit.IsIntConst(b.Y, 0) {
-					switch b.Op {
-					case token.GTR, token.NEQ:
-						return true, true
-					case token.LEQ, token.EQL:
-						return true, false
-					}
-				}
-				return false, false
-			}), "n>0")
+			// n is a count (never negative): n != 0 and n > 0 are the same test
+			g := kit.NewGates().AddEdges(kit.RangeEdges(nack, func(x ssa.Value) bool { return x == nVal }, 1, -1), "n>0")
 			c.Dominated(r, "v2 Worker.Nack: Source.Ack only when n>0", []ssa.Instruction{call}, g, "the n>0 edge")
 		}
 	}
@@ -755,17 +802,7 @@ func c01R8(c *Ctx) {
 		}
 		g := okGates(sendCalls, "sendToDLQ ok")
 		if nacked != nil {
-			g.AddEdges(kit.CmpEdges(dn, func(b *ssa.BinOp) (bool, bool) {
-				if b.X == nacked && kit.IsIntConst(b.Y, 0) {
-					switch b.Op {
-					case token.GTR, token.NEQ:
-						return true, false
-					case token.LEQ, token.EQL:
-						return true, true
-					}
-				}
-				return false, false
-			}), "nacked==0")
+			g.AddEdges(kit.RangeEdges(dn, func(x ssa.Value) bool { return x == nacked }, 0, 0), "nacked==0")
 		}
 		var sendCount ssa.Value
 		for _, sc := range sendCalls {
